@@ -477,6 +477,12 @@ def py_len(I, ctx, v):
     if isinstance(v, (FmtStr, IsoStr)):
         from . import strings
         return strings.str_len(I, ctx, v)
+    if isinstance(v, Opaque) and str(v.tag).startswith("array:") and v.e is not None:
+        # an array whose content is opaque: its length is an unspecified function of the array
+        srt = v.e.sort()
+        f = z3.Function("LEN_OF_" + srt.name(), srt, z3.IntSort())
+        ctx.assume(f(v.e) >= 0)
+        return B.wrap(f(v.e))
     raise Unsupported(f"len() of {v!r} at {ctx.where}")
 
 
